@@ -553,3 +553,311 @@ Proof.
   - rewrite Ex, Rabs_mult. replace (bpow radix2 110) with (bpow radix2 109 * 2) by (rewrite <- bpow_double; reflexivity).
     apply Rmult_le_compat; try apply Rabs_pos; [exact HM|]. apply Rabs_le. destruct (one_plus_eps_bounds _ Hd7); lra.
 Qed.
+
+(* ====================================================================================================== *)
+(* math.Ceil, math.Max, int(): from the float value to the integer delta                                  *)
+(* ====================================================================================================== *)
+Lemma fceil_correct x : B2R (fceil x) = IZR (Zceil (B2R x)) /\ is_finite (fceil x) = is_finite x.
+Proof.
+  destruct (Bnearbyint_correct prec emax Hmax mode_UP x) as [H1 [H2 _]].
+  split; [|exact H2]. unfold fceil. rewrite H1. simpl round_mode. apply round_FIX_IZR.
+Qed.
+
+Lemma finite_not_special x : is_finite x = true -> is_pinf x = false /\ is_nan_b x = false.
+Proof. destruct x; simpl; intro H; try discriminate; split; reflexivity. Qed.
+
+Lemma is_zero_B2R x : is_zero_b x = true -> B2R x = 0.
+Proof. destruct x; simpl; intro H; try discriminate; reflexivity. Qed.
+
+Lemma fgt_correct x y : is_finite x = true -> is_finite y = true -> fgt x y = true <-> B2R y < B2R x.
+Proof.
+  intros Fx Fy. unfold fgt. rewrite (Bcompare_correct prec emax x y Fx Fy).
+  destruct (Rcompare_spec (B2R x) (B2R y)); split; intro G; try discriminate; try reflexivity; lra.
+Qed.
+
+Lemma feq_correct x y : is_finite x = true -> is_finite y = true -> feq x y = true <-> B2R x = B2R y.
+Proof.
+  intros Fx Fy. unfold feq. rewrite (Bcompare_correct prec emax x y Fx Fy).
+  destruct (Rcompare_spec (B2R x) (B2R y)); split; intro G; try discriminate; try reflexivity; lra.
+Qed.
+
+Lemma fmax_correct x y : is_finite x = true -> is_finite y = true ->
+  B2R (fmax x y) = Rmax (B2R x) (B2R y) /\ is_finite (fmax x y) = true.
+Proof.
+  intros Fx Fy. unfold fmax.
+  destruct (finite_not_special x Fx) as [Px Nx], (finite_not_special y Fy) as [Py Ny].
+  rewrite Px, Py, Nx, Ny. simpl.
+  destruct (is_zero_b x && is_zero_b y) eqn:Z.
+  - apply andb_prop in Z. destruct Z as [Zx Zy]. pose proof (is_zero_B2R _ Zx) as Ex. pose proof (is_zero_B2R _ Zy) as Ey.
+    destruct (sign_b x); [split; [rewrite Ex, Ey, Rmax_left; lra|exact Fy]|split; [rewrite Ex, Ey, Rmax_left; lra|exact Fx]].
+  - destruct (fgt x y) eqn:G.
+    + apply (fgt_correct x y Fx Fy) in G. split; [rewrite Rmax_left; lra|exact Fx].
+    + split; [|exact Fy]. rewrite Rmax_right; [reflexivity|].
+      destruct (Rle_or_lt (B2R x) (B2R y)) as [L|L]; [exact L|]. apply (fgt_correct x y Fx Fy) in L. congruence.
+Qed.
+
+Lemma Rmax_IZR a b : Rmax (IZR a) (IZR b) = IZR (Z.max a b).
+Proof.
+  destruct (Z_le_gt_dec a b) as [H|H].
+  - rewrite Z.max_r by lia. apply Rmax_right, IZR_le, H.
+  - rewrite Z.max_l by lia. apply Rmax_left, IZR_le. lia.
+Qed.
+
+(* int(f) of a finite float holding an integer inside int64 is that integer *)
+Lemma to_int_correct x k : is_finite x = true -> B2R x = IZR k ->
+  (-9223372036854775808 <= k <= 9223372036854775807)%Z -> to_int x = k.
+Proof.
+  destruct x as [s| | |s m e He]; intros F E Hk; try discriminate F.
+  - simpl in E. simpl. symmetry. apply eq_IZR. rewrite <- E. reflexivity.
+  - unfold to_int. unfold B2R in E.
+    assert (V : (if s then - (if (0 <=? e)%Z then Z.pos m * 2 ^ e else Z.pos m / 2 ^ (- e)) else (if (0 <=? e)%Z then Z.pos m * 2 ^ e else Z.pos m / 2 ^ (- e)))%Z = k).
+    { unfold F2R in E. simpl Fnum in E. simpl Fexp in E.
+      destruct (Z.leb_spec 0 e) as [Le|Le].
+      - rewrite <- IZR_Zpower in E by exact Le. rewrite <- mult_IZR in E. apply eq_IZR in E.
+        change (radix_val radix2) with 2%Z in E. destruct s; unfold cond_Zopp in E; lia.
+      - assert (E' : IZR (cond_Zopp s (Z.pos m)) = IZR (k * 2 ^ (- e))).
+        { rewrite mult_IZR. change 2%Z with (radix_val radix2). rewrite IZR_Zpower by lia. rewrite <- E, Rmult_assoc, <- bpow_plus.
+          replace (e + - e)%Z with 0%Z by lia. simpl. ring. }
+        apply eq_IZR in E'. assert (P : (0 < 2 ^ (- e))%Z) by (apply Z.pow_pos_nonneg; lia).
+        destruct s; unfold cond_Zopp in E'.
+        + assert (Z.pos m = (- k) * 2 ^ (- e))%Z by lia. rewrite H. rewrite Z.div_mul by lia. lia.
+        + rewrite E'. rewrite Z.div_mul by lia. reflexivity. }
+    rewrite V.
+    destruct ((-9223372036854775808 <=? k)%Z && (k <=? 9223372036854775807)%Z) eqn:B; [reflexivity|].
+    apply andb_false_iff in B. destruct B as [B|B]; [apply Z.leb_gt in B|apply Z.leb_gt in B]; lia.
+Qed.
+
+Lemma f_max_lower : is_finite f_max = true /\ bpow radix2 1000 <= B2R f_max.
+Proof.
+  set (x := F2R (Float radix2 9007199254740991 971)).
+  assert (Hx : x = IZR 9007199254740991 * bpow radix2 971) by reflexivity.
+  assert (Hpos : 0 < x) by (rewrite Hx; apply Rmult_lt_0_compat; [apply IZR_lt; reflexivity|apply bpow_gt_0]).
+  assert (Hlt : Rabs x < bpow radix2 1024).
+  { rewrite Rabs_pos_eq, Hx by lra.
+    replace (bpow radix2 1024) with (bpow radix2 53 * bpow radix2 971) by (rewrite <- bpow_plus; reflexivity).
+    apply Rmult_lt_compat_r; [apply bpow_gt_0|]. rewrite <- IZR_Zpower by lia. apply IZR_lt. reflexivity. }
+  assert (Fx : format x).
+  { apply generic_format_F2R. intros _. unfold cexp. fold x.
+    assert (Hm : (mag radix2 x <= 1024)%Z) by (apply mag_le_bpow; [lra|exact Hlt]).
+    unfold SpecFloat.fexp, SpecFloat.emin, prec, emax. simpl Fexp. lia. }
+  generalize (binary_normalize_correct prec emax Hprec Hmax mode_NE 9007199254740991 971 false). cbv zeta. fold x.
+  simpl round_mode. rewrite (round_generic radix2 fexp ZnearestE x Fx).
+  rewrite Rlt_bool_true by exact Hlt. fold f_max. intros [H1 [H2 _]]. split; [exact H2|].
+  rewrite H1, Hx.
+  replace (bpow radix2 1000) with (bpow radix2 29 * bpow radix2 971) by (rewrite <- bpow_plus; reflexivity).
+  apply Rmult_le_compat_r; [apply bpow_ge_0|]. rewrite <- IZR_Zpower by lia. apply IZR_le. change (radix_val radix2) with 2%Z. lia.
+Qed.
+
+Lemma feq_max_false x : is_finite x = true -> Rabs (B2R x) <= bpow radix2 999 -> feq x f_max = false.
+Proof.
+  intros F H. destruct f_max_lower as [Fm Lm].
+  destruct (feq x f_max) eqn:E; [|reflexivity]. apply (feq_correct x f_max F Fm) in E.
+  pose proof (Rle_abs (B2R x)). pose proof (bpow_lt radix2 999 1000 ltac:(lia)). lra.
+Qed.
+
+(* the normal branch of calcScaleUpDelta, evaluated: the delta is the larger of the two ceilings *)
+Lemma calc_delta_normal n cp mp cpuReq memReq t ccpu cmem :
+  is_finite cp = true -> is_finite mp = true ->
+  Rabs (B2R cp) <= bpow radix2 999 -> Rabs (B2R mp) <= bpow radix2 999 ->
+  is_finite (xt n t cp) = true -> is_finite (xt n t mp) = true ->
+  let dc := Zceil (B2R (xt n t cp)) in let dm := Zceil (B2R (xt n t mp)) in
+  (-9223372036854775808 <= Z.max dc dm <= 9223372036854775807)%Z ->
+  calc_delta n cp mp cpuReq memReq t ccpu cmem
+  = if (Z.max dc dm <? 0)%Z then DeltaErr (Z.max dc dm) else DeltaOk (Z.max dc dm).
+Proof.
+  intros Fc Fm Bc Bm Fxc Fxm dc dm Hd.
+  unfold calc_delta. rewrite (feq_max_false cp Fc Bc), (feq_max_false mp Fm Bm). simpl orb. cbv iota.
+  fold (xt n t cp). fold (xt n t mp).
+  destruct (fceil_correct (xt n t cp)) as [Ec Gc]. destruct (fceil_correct (xt n t mp)) as [Em Gm].
+  rewrite Fxc in Gc. rewrite Fxm in Gm.
+  destruct (fmax_correct _ _ Gc Gm) as [EM FM]. rewrite Ec, Em, Rmax_IZR in EM. fold dc dm in EM.
+  rewrite (to_int_correct _ (Z.max dc dm) FM EM Hd). reflexivity.
+Qed.
+
+(* a zero percentage (nothing requested of that resource): the computed x is about -n, never positive *)
+Lemma xt_of_zero p t n : is_finite p = true -> B2R p = 0 -> (1 <= t <= 2 ^ 31)%Z -> (1 <= n <= 2 ^ 31)%Z ->
+  is_finite (xt n t p) = true /\ - (8 * IZR n) <= B2R (xt n t p) < 0.
+Proof.
+  intros Fp Zp Ht Hn.
+  destruct (of_Z_exact t ltac:(lia)) as [Et Ft]. destruct (of_Z_exact n ltac:(lia)) as [En Fn].
+  assert (Wt : within 0 32 (IZR t)) by (apply within_IZR; lia).
+  assert (Wn : within 0 32 (IZR n)) by (apply within_IZR; lia).
+  assert (Ht0 : 0 < IZR t) by (eapply within_pos; exact Wt). assert (Hn0 : 0 < IZR n) by (eapply within_pos; exact Wn).
+  destruct (fsub_rel p (of_Z t) Fp Ft) as [d5 [Hd5 [Es Fs]]].
+  { rewrite Zp, Et, Rminus_0_l, Rabs_Ropp, Rabs_pos_eq by lra. destruct Wt as [_ W]. eapply Rle_trans; [exact W|apply bpow_le; lia]. }
+  rewrite Zp, Et in Es.
+  destruct (one_plus_eps_bounds _ Hd5) as [L5 U5].
+  assert (Eq0 : B2R (fsub p (of_Z t)) / B2R (of_Z t) = - (1 + d5)) by (rewrite Es, Et; field; lra).
+  destruct (fdiv_rel (fsub p (of_Z t)) (of_Z t) Fs Ft) as [d6 [Hd6 [Ew Fw]]].
+  { rewrite Et; lra. }
+  { right. rewrite Eq0, Rabs_Ropp, Rabs_pos_eq by lra. apply Rle_trans with (/ 2); [|lra].
+    replace (/ 2) with (bpow radix2 (-1)) by reflexivity. apply bpow_le; lia. }
+  { rewrite Eq0, Rabs_Ropp, Rabs_pos_eq by lra. apply Rle_trans with 2; [lra|]. replace 2 with (bpow radix2 1) by reflexivity. apply bpow_le; lia. }
+  rewrite Eq0 in Ew. destruct (one_plus_eps_bounds _ Hd6) as [L6 U6].
+  assert (W1 : / 4 <= (1 + d5) * (1 + d6) <= 4) by nra.
+  assert (Em0 : B2R (of_Z n) * B2R (fdiv (fsub p (of_Z t)) (of_Z t)) = - (IZR n * ((1 + d5) * (1 + d6)))) by (rewrite En, Ew; ring).
+  assert (W2 : / 4 <= IZR n * ((1 + d5) * (1 + d6)) <= bpow radix2 34).
+  { destruct Wn as [Wn1 Wn2]. simpl in Wn1. split; [nra|].
+    replace (bpow radix2 34) with (bpow radix2 32 * bpow radix2 2) by (rewrite <- bpow_plus; reflexivity).
+    assert (B2 : bpow radix2 2 = 4) by (simpl; lra). rewrite B2.
+    apply Rmult_le_compat; lra. }
+  destruct (fmul_rel (of_Z n) (fdiv (fsub p (of_Z t)) (of_Z t)) Fn Fw) as [d7 [Hd7 [Ex Fx]]].
+  { right. rewrite Em0, Rabs_Ropp, Rabs_pos_eq by lra. apply Rle_trans with (/ 4); [|lra].
+    replace (/ 4) with (bpow radix2 (-2)) by (simpl; lra). apply bpow_le; lia. }
+  { rewrite Em0, Rabs_Ropp, Rabs_pos_eq by lra. eapply Rle_trans; [apply W2|apply bpow_le; lia]. }
+  fold (xt n t p) in Ex, Fx. split; [exact Fx|].
+  rewrite Ex, Em0. destruct (one_plus_eps_bounds _ Hd7) as [L7 U7].
+  assert (W3 : 0 < IZR n * ((1 + d5) * (1 + d6)) <= 4 * IZR n) by nra.
+  split; nra.
+Qed.
+
+(* ====================================================================================================== *)
+(* from the error bound to the integer statements                                                         *)
+(* ====================================================================================================== *)
+Lemma Zceil_div a b : (0 < b)%Z -> Zceil (IZR a / IZR b) = ceil_div a b.
+Proof.
+  intro Hb. unfold Zceil, ceil_div.
+  replace (- (IZR a / IZR b)) with (IZR (- a) / IZR b) by (rewrite opp_IZR; field; apply IZR_neq; lia).
+  rewrite Zfloor_div by lia. reflexivity.
+Qed.
+
+Lemma xr_ratio r c t n : (0 < c)%Z -> (0 < t)%Z -> (0 < n)%Z ->
+  xr r (n * c) t n = IZR (100 * r - t * n * c) / IZR (t * c).
+Proof.
+  intros Hc Ht Hn. unfold xr. rewrite minus_IZR, !mult_IZR.
+  assert (IZR c <> 0) by (apply IZR_neq; lia). assert (IZR t <> 0) by (apply IZR_neq; lia). assert (IZR n <> 0) by (apply IZR_neq; lia).
+  field. repeat split; assumption.
+Qed.
+
+(* the exact real x has ceiling exact_delta *)
+Lemma Zceil_xr r c t n : (0 < c)%Z -> (0 < t)%Z -> (0 < n)%Z -> Zceil (xr r (n * c) t n) = exact_delta r c t n.
+Proof. intros Hc Ht Hn. rewrite xr_ratio by assumption. apply Zceil_div. nia. Qed.
+
+Lemma xr_plus_n r c t n : (0 < c)%Z -> (0 < t)%Z -> (0 < n)%Z ->
+  xr r (n * c) t n + IZR n = 100 * IZR r / (IZR t * IZR c).
+Proof.
+  intros Hc Ht Hn. unfold xr. rewrite mult_IZR.
+  assert (IZR c <> 0) by (apply IZR_neq; lia). assert (IZR t <> 0) by (apply IZR_neq; lia). assert (IZR n <> 0) by (apply IZR_neq; lia).
+  field. repeat split; assumption.
+Qed.
+
+Definition dz (r C t n : Z) : Z := Zceil (B2R (xt n t (pct r C))).
+
+Lemma u_two53 : u * IZR (2 ^ 53) = 1.
+Proof. unfold u. change (2 ^ 53)%Z with 9007199254740992%Z. field. Qed.
+
+(* at most one more, one resource: whenever 8 * (least sufficient count) < 2^53 *)
+Lemma res_at_most_one r c t n :
+  (1 <= r < 2 ^ 63)%Z -> (0 < c)%Z -> (1 <= n * c < 2 ^ 63)%Z -> (1 <= t <= 2 ^ 31)%Z -> (1 <= n <= 2 ^ 31)%Z ->
+  (8 * nodes_needed_exact r c t < 2 ^ 53)%Z ->
+  is_finite (xt n t (pct r (n * c))) = true
+  /\ (dz r (n * c) t n <= exact_delta r c t n + 1)%Z
+  /\ (- 2 ^ 33 <= dz r (n * c) t n)%Z.
+Proof.
+  intros Hr Hc HC Ht Hn Hm. unfold dz.
+  destruct (xt_error r (n * c) t n Hr HC Ht Hn) as [Fx [Herr _]].
+  split; [exact Fx|].
+  pose proof (Zceil_xr r c t n Hc ltac:(lia) ltac:(lia)) as Ez.
+  pose proof (xr_plus_n r c t n Hc ltac:(lia) ltac:(lia)) as Ey.
+  set (x := xr r (n * c) t n) in *. set (X := B2R (xt n t (pct r (n * c)))) in *.
+  pose proof (Zceil_ub x) as Hub. rewrite Ez in Hub.
+  assert (Hn1 : 1 <= IZR n <= IZR (2 ^ 31)) by (split; apply IZR_le; lia).
+  assert (Hy : 0 <= x + IZR n).
+  { rewrite Ey. apply Rmult_le_pos; [apply Rmult_le_pos; [lra|apply IZR_le; lia]|].
+    apply Rlt_le, Rinv_0_lt_compat, Rmult_lt_0_compat; apply IZR_lt; lia. }
+  pose proof u_pos as Hu. pose proof u_two53 as Hu53.
+  (* the error is below 1 *)
+  assert (Hsmall : 8 * u * (Rabs x + IZR n) < 1).
+  { destruct (Rle_or_lt 0 x) as [Px|Nx].
+    - rewrite Rabs_pos_eq by exact Px.
+      assert (Hneed : x + IZR n <= IZR (nodes_needed_exact r c t)).
+      { rewrite <- (exact_delta_spec r c t n) by lia. rewrite plus_IZR. lra. }
+      assert (H8 : 8 * IZR (nodes_needed_exact r c t) < IZR (2 ^ 53)) by (rewrite <- (mult_IZR 8); apply IZR_lt; exact Hm).
+      apply Rle_lt_trans with (u * (8 * IZR (nodes_needed_exact r c t))); [nra|].
+      rewrite <- Hu53. apply Rmult_lt_compat_l; lra.
+    - rewrite Rabs_left by exact Nx.
+      apply Rle_lt_trans with (u * (16 * IZR (2 ^ 31))); [nra|].
+      rewrite <- Hu53. apply Rmult_lt_compat_l; [lra|]. rewrite <- (mult_IZR 16). apply IZR_lt. reflexivity. }
+  apply Rabs_le_inv in Herr. split.
+  - apply Zceil_glb. rewrite plus_IZR. simpl (IZR 1). lra.
+  - (* lower bound: x >= -n, error below 1 *)
+    assert (HX : - IZR (2 ^ 33) <= X).
+    { assert (IZR (2 ^ 31) + 1 <= IZR (2 ^ 33)) by (rewrite <- (plus_IZR _ 1); apply IZR_le; lia). lra. }
+    pose proof (Zceil_ub X) as HubX.
+    apply le_IZR. rewrite opp_IZR. lra.
+Qed.
+
+Lemma ceil_div_scale G a b : (0 < G)%Z -> (0 < b)%Z -> ceil_div (G * a) (G * b) = ceil_div a b.
+Proof.
+  intros HG Hb. unfold ceil_div. replace (- (G * a))%Z with (G * - a)%Z by lia.
+  rewrite Z.div_mul_cancel_l by lia. reflexivity.
+Qed.
+
+(* sufficient, one resource: requests r = G r' and node size c = G c' share a granularity G with 800 r' < 2^53 *)
+Lemma res_sufficient r c t n G r' c' :
+  (1 <= r < 2 ^ 63)%Z -> (0 < c)%Z -> (1 <= n * c < 2 ^ 63)%Z -> (1 <= t <= 2 ^ 31)%Z -> (1 <= n <= 2 ^ 31)%Z ->
+  (0 < G)%Z -> r = (G * r')%Z -> c = (G * c')%Z -> (800 * r' < 2 ^ 53)%Z ->
+  exceeds r (n * c) t = true ->
+  (exact_delta r c t n <= dz r (n * c) t n)%Z.
+Proof.
+  intros Hr Hc HC Ht Hn HG Er Ec Hreg Hex. unfold dz.
+  destruct (xt_error r (n * c) t n Hr HC Ht Hn) as [_ [Herr _]].
+  pose proof (xr_ratio r c t n Hc ltac:(lia) ltac:(lia)) as Ex.
+  pose proof (xr_plus_n r c t n Hc ltac:(lia) ltac:(lia)) as Ey.
+  set (x := xr r (n * c) t n) in *. set (X := B2R (xt n t (pct r (n * c)))) in *.
+  assert (Hc' : (0 < c')%Z) by nia. assert (Hr' : (0 < r')%Z) by nia.
+  set (A := (100 * r' - t * n * c')%Z). set (B := (t * c')%Z).
+  assert (HB : (0 < B)%Z) by (unfold B; nia).
+  assert (EA : (100 * r - t * n * c = G * A)%Z) by (unfold A; rewrite Er, Ec; ring).
+  assert (EB : (t * c = G * B)%Z) by (unfold B; rewrite Ec; ring).
+  assert (Ed : exact_delta r c t n = ceil_div A B) by (unfold exact_delta; rewrite EA, EB; apply ceil_div_scale; assumption).
+  assert (Br : 0 < IZR B) by (apply IZR_lt; exact HB).
+  assert (Gr : 0 < IZR G) by (apply IZR_lt; exact HG).
+  (* x B = A, (x + n) B = 100 r' *)
+  assert (xB : x * IZR B = IZR A).
+  { rewrite Ex, EA, EB, !mult_IZR. field. split; lra. }
+  assert (yB : (x + IZR n) * IZR B = 100 * IZR r').
+  { rewrite Ey. unfold B. rewrite Er, Ec, !mult_IZR.
+    assert (IZR t <> 0) by (apply IZR_neq; lia). assert (IZR c' <> 0) by (apply IZR_neq; lia).
+    field. repeat split; try assumption; lra. }
+  (* x > 0 *)
+  assert (Hx : 0 < x).
+  { unfold exceeds in Hex. apply Z.ltb_lt in Hex.
+    assert (0 < IZR A) by (apply IZR_lt; unfold A; nia).
+    apply Rmult_lt_reg_r with (IZR B); [exact Br|]. rewrite xB. lra. }
+  (* (ceil - 1) B + 1 <= A *)
+  set (k := (ceil_div A B - 1)%Z).
+  assert (Hk : IZR k * IZR B + 1 <= IZR A).
+  { pose proof (ceil_div_lower A B HB) as L. fold k in L.
+    rewrite <- mult_IZR, <- (plus_IZR _ 1). apply IZR_le. lia. }
+  pose proof u_pos as Hu. pose proof u_two53 as Hu53.
+  assert (Hsm : 8 * u * (100 * IZR r') < 1).
+  { replace (8 * u * (100 * IZR r')) with (u * (800 * IZR r')) by ring.
+    rewrite <- Hu53. apply Rmult_lt_compat_l; [lra|]. rewrite <- (mult_IZR 800). apply IZR_lt. exact Hreg. }
+  assert (HkX : IZR k < X).
+  { apply Rabs_le_inv in Herr. rewrite (Rabs_pos_eq x) in Herr by lra.
+    apply Rlt_le_trans with (x - 8 * u * (x + IZR n)); [|lra].
+    apply Rmult_lt_reg_r with (IZR B); [exact Br|].
+    replace ((x - 8 * u * (x + IZR n)) * IZR B) with (x * IZR B - 8 * u * ((x + IZR n) * IZR B)) by ring.
+    rewrite xB, yB. lra. }
+  rewrite Ed. pose proof (Zceil_ub X) as HubX.
+  assert (k < Zceil X)%Z by (apply lt_IZR; lra). unfold k in *. lia.
+Qed.
+
+(* a resource at or below the threshold never asks for more than one node; the zero request asks for none *)
+Lemma res_not_exceeding r c t n :
+  (1 <= r < 2 ^ 63)%Z -> (0 < c)%Z -> (1 <= n * c < 2 ^ 63)%Z -> (1 <= t <= 2 ^ 31)%Z -> (1 <= n <= 2 ^ 31)%Z ->
+  exceeds r (n * c) t = false ->
+  is_finite (xt n t (pct r (n * c))) = true /\ (- 2 ^ 33 <= dz r (n * c) t n <= 1)%Z.
+Proof.
+  intros Hr Hc HC Ht Hn Hex.
+  assert (Hneed : (nodes_needed_exact r c t <= n)%Z).
+  { apply nodes_needed_least; try lia. unfold holds_at. unfold exceeds in Hex. apply Z.ltb_ge in Hex. nia. }
+  assert (H0 : (0 <= nodes_needed_exact r c t)%Z).
+  { destruct (Z_lt_le_dec (nodes_needed_exact r c t) 0) as [L|L]; [|exact L]. exfalso.
+    assert (G : (nodes_needed_exact r c t <= -1)%Z) by lia.
+    apply (nodes_needed_least r c t (-1)) in G; try lia. unfold holds_at in G. nia. }
+  destruct (res_at_most_one r c t n Hr Hc HC Ht Hn ltac:(lia)) as [Fx [Hup Hlo]].
+  split; [exact Fx|]. split; [exact Hlo|].
+  pose proof (exact_delta_spec r c t n Hc ltac:(lia)). lia.
+Qed.
